@@ -308,6 +308,33 @@ class RangeIter:
         return None
 
 
+class RangeIncIter:
+    """std::ops::RangeInclusive<int> used as an iterator (bounds may be symbolic; each step forks on start <= end)"""
+
+    def __init__(self, adt):
+        self.adt = adt
+        if len(adt.fields) < 3:
+            adt.fields.append(False)  # exhausted
+
+    def next(self, it=None):
+        if self.adt.fields[2]:
+            return None
+        lo, hi = self.adt.fields[0], self.adt.fields[1]
+        le = (lo.t <= hi.t) if lo.signed else z3.ULE(lo.t, hi.t)
+        if not it.ctx.branch(le):
+            self.adt.fields[2] = True
+            return None
+        if it.ctx.branch(lo.t == hi.t):
+            self.adt.fields[2] = True
+        else:
+            self.adt.fields[0] = Int(lo.t + 1, lo.bits, lo.signed)
+        return lo
+
+
+def is_range_inc(x):
+    return isinstance(x, Adt) and [y for y in re.sub(r"<.*>", "", x.name).split("::") if y][-1:] == ["RangeInclusive"]
+
+
 def is_range(x):
     return isinstance(x, Adt) and [y for y in re.sub(r"<.*>", "", x.name).split("::") if y][-1:] == ["Range"]
 
@@ -318,6 +345,10 @@ def to_iter(x):
         return x
     if is_range(x):
         return RangeIter(x)
+    if is_range_inc(x):
+        return RangeIncIter(x)
+    if isinstance(x, RangeIncIter):
+        return x
     if isinstance(x, Enum) and x.variant in ("Some", "None"):
         return SeqIter([x.fields[0]] if x.variant == "Some" else [])
     if isinstance(x, MapObj):
@@ -334,7 +365,7 @@ def m_vec_into_iter_by_value(it, callee, args, m):
 
 def m_into_iter(it, callee, args, m):
     x = args[0]
-    if isinstance(x, (SeqIter, LazyIter, RangeIter)) or is_range(x):
+    if isinstance(x, (SeqIter, LazyIter, RangeIter)) or is_range(x) or is_range_inc(x):
         return x
     return to_iter(x)
 
@@ -368,7 +399,10 @@ def m_map(it, callee, args, m):
             if x is None:
                 return
             yield it.call_closure(clos, [x])
-    return LazyIter(gen())
+    lz = LazyIter(gen())
+    if isinstance(inner, SeqIter):
+        lz.exact = inner  # Map<slice::Iter> is an ExactSizeIterator: as many items as its inner iterator still holds
+    return lz
 
 
 def m_filter(it, callee, args, m):
@@ -406,7 +440,9 @@ def m_flat_map(it, callee, args, m):
             x = inner.next(it)
             if x is None:
                 return
-            sub = to_iter(it.call_closure(clos, [x]))
+            r = it.call_closure(clos, [x])
+            # a Vec returned by value is consumed by value (its elements, not references to them)
+            sub = SeqIter([c.v for c in r.elems]) if isinstance(r, VecObj) else to_iter(r)
             while True:
                 y = sub.next(it)
                 if y is None:
@@ -569,6 +605,8 @@ def m_exact_len(it, callee, args, m):
     x = deref(args[0])
     if isinstance(x, SeqIter):
         return usize(x.hi - x.lo)
+    if isinstance(x, LazyIter) and getattr(x, "exact", None) is not None:
+        return usize(x.exact.hi - x.exact.lo)
     raise Unsupported(f"ExactSizeIterator::len of {type(x).__name__}")
 
 
@@ -612,6 +650,16 @@ def m_hash_keys(it, callee, args, m):
     """HashMap::keys: Rust leaves the order unspecified; the model iterates in insertion order (one of the allowed orders)"""
     h = deref(args[0])
     return SeqIter([Ref(Cell(k)) for k, _c in h.entries])
+
+
+def m_hash_values(it, callee, args, m):
+    """HashMap::values: insertion order (one of the orders Rust allows; callers must not depend on it)"""
+    h = deref(args[0])
+    return SeqIter([Ref(c) for _k, c in h.entries])
+
+
+def m_hash_len(it, callee, args, m):
+    return usize(len(deref(args[0]).entries))
 
 
 def m_hash_from_array(it, callee, args, m):
@@ -846,6 +894,22 @@ def m_tuple_windows(it, callee, args, m):
 def m_opt_into_iter(it, callee, args, m):
     o = args[0]
     return SeqIter([o.fields[0]] if o.variant == "Some" else [])
+
+
+def m_range_inclusive_contains(it, callee, args, m):
+    r, x = deref(args[0]), deref(args[1])
+    lo, hi = r.fields[0], r.fields[1]
+    if lo.signed:
+        return z3.And(lo.t <= x.t, x.t <= hi.t)
+    return z3.And(z3.ULE(lo.t, x.t), z3.ULE(x.t, hi.t))
+
+
+def m_range_contains(it, callee, args, m):
+    r, x = deref(args[0]), deref(args[1])
+    lo, hi = r.fields[0], r.fields[1]
+    if lo.signed:
+        return z3.And(lo.t <= x.t, x.t < hi.t)
+    return z3.And(z3.ULE(lo.t, x.t), z3.ULT(x.t, hi.t))
 
 
 def m_range_inclusive_new(it, callee, args, m):
@@ -1873,6 +1937,15 @@ def m_sort_by_key(it, callee, args, m):
     return ()
 
 
+def m_iter_sorted_by_key(it, callee, args, m):
+    """Itertools::sorted_by_key / sorted_unstable_by_key: collect, sort by the real key closure (stable order - one of the
+    orders the unstable variant may produce), iterate by value"""
+    vals = drain(to_iter(args[0]), it)
+    vec = VecObj(vals)
+    m_sort_by_key(it, callee, [SliceRef(vec, 0, len(vals)), args[1]], m)
+    return SeqIter([c.v for c in vec.elems])
+
+
 def m_vec_retain(it, callee, args, m):
     """Contract assumed for Vec::retain: the predicate is called exactly once per element, in
     order, and exactly the elements for which it returned true are kept, in order."""
@@ -1908,8 +1981,25 @@ def m_vec_truncate(it, callee, args, m):
     return ()
 
 
+def m_vec_resize(it, callee, args, m):
+    """Vec::resize(new_len, value): new_len must be concrete on the path (<= 64; forks otherwise)"""
+    v = deref(args[0])
+    k = it.ctx.choose(args[1].t, list(range(65)))
+    if k <= len(v.elems):
+        v.elems = v.elems[:k]
+    else:
+        v.elems = v.elems + [Cell(copy_val(args[2])) for _ in range(k - len(v.elems))]
+    return ()
+
+
 IT = r"(?:<.* as (?:Iterator|DoubleEndedIterator|ExactSizeIterator|IntoIterator)>|Iterator|DoubleEndedIterator)"
 MODELS = [
+    (r"^(std::ops::|core::ops::)?Range::<.*>::contains::<", m_range_contains),
+    (r"^Vec::<.*>::resize$", m_vec_resize),
+    (r"^(std::ops::|core::ops::)?RangeInclusive::<.*>::contains::<", m_range_inclusive_contains),
+    (r"^<.* as Itertools>::sorted(_unstable)?_by_key::<", m_iter_sorted_by_key),
+    (r"^<foldhash::(fast|quality)::FixedState as Default>::default$", lambda it, c, a, m: Adt("FixedState", [Int(0)])),
+    (r"^(std::iter::|core::iter::)?once::<", lambda it, c, a, m: SeqIter([a[0]])),
     (r"^<Cow<'_, \[.*\]> as (Deref|AsRef<\[.*\]>)>::(deref|as_ref)$", m_cow_slice),
     (r"^<Vec<.*> as IntoIterator>::into_iter$", lambda it, c, a, m: m_vec_into_iter_by_value(it, c, a, m)),
     (r"^<\[.*; \d+\] as IntoIterator>::into_iter$", lambda it, c, a, m: m_array_into_iter(it, c, a, m)),
@@ -1931,7 +2021,7 @@ MODELS = [
     (r"^core::slice::<impl \[.*\]>::iter(_mut)?$", m_slice_iter),
     (r"^core::slice::<impl \[.*\]>::windows$", m_slice_windows),
     (r"^core::slice::<impl \[.*\]>::split::<", m_slice_split),
-    (r"^core::slice::<impl \[.*\]>::first$", m_slice_first),
+    (r"^core::slice::<impl \[.*\]>::first(_mut)?$", m_slice_first),
     (r"^core::slice::<impl \[.*\]>::last$", m_slice_last),
     (r"^core::slice::<impl \[.*\]>::get::<usize>$", m_slice_get),
     (r"^core::slice::<impl \[.*\]>::swap$", m_slice_swap),
@@ -1967,6 +2057,8 @@ MODELS = [
     (r"^(hashbrown::)?HashMap::<.*>::(get|get_mut)::<", m_hash_get),
     (r"^(hashbrown::)?HashMap::<.*>::contains_key::<", m_hash_contains),
     (r"^(hashbrown::)?HashMap::<.*>::insert$", m_hash_insert),
+    (r"^(hashbrown::)?HashMap::<.*>::values$", m_hash_values),
+    (r"^(hashbrown::)?HashMap::<.*>::len$", m_hash_len),
     (r"^core::bool::<impl bool>::then::<", m_bool_then),
     (r"^SmallVec::<.*>::extend_from_slice$", m_extend_from_slice),
     (r"^<(std::string::)?String as Default>::default$|^(std::string::)?String::new$|^(std::string::)?String::with_capacity$", lambda it, c, a, m: StringObj([])),
@@ -1995,6 +2087,7 @@ MODELS = [
     (r"^<Box<.*> as AsRef<.*>>::as_ref$", lambda it, c, a, m: a[0].get() if isinstance(a[0], Ref) and isinstance(a[0].get(), Ref) else a[0]),
     (r"^(alloc|std)::fmt::format$|^format$", m_fmt_format),
     (r"^<(std::)?slice::Iter(Mut)?<'_, .*> as ExactSizeIterator>::len$", m_exact_len),
+    (r"^<(std::iter::)?Map<(std::)?slice::Iter(Mut)?<'_, .*>, .*> as ExactSizeIterator>::len$", m_exact_len),
     (IT + r"::sum::<(?P<ty>u8|u16|u32|u64)>$", m_sum_int),
     (IT + r"::fold::<", m_fold),
     (IT + r"::max$", m_iter_max),
@@ -2038,8 +2131,8 @@ MODELS = [
     (r"^Vec::<.*>::is_empty$", m_is_empty),
     (r"^Option::<.*>::(as_ref|as_mut)$", m_opt_as_ref),
     (r"^Option::<.*>::take$", m_opt_take),
-    (r"^(std|core)::cmp::max::<usize>$|^<usize as Ord>::max$|^core::cmp::Ord::max$", m_int_max),
-    (r"^(std|core)::cmp::min::<usize>$|^<usize as Ord>::min$|^core::cmp::Ord::min$", m_int_min),
+    (r"^(std|core)::cmp::max::<(usize|u8|u32|u64|i32)>$|^<(usize|u8|u32|u64|i32) as Ord>::max$|^core::cmp::Ord::max$", m_int_max),
+    (r"^(std|core)::cmp::min::<(usize|u8|u32|u64|i32)>$|^<(usize|u8|u32|u64|i32) as Ord>::min$|^core::cmp::Ord::min$", m_int_min),
     (r"^core::num::<impl usize>::saturating_sub$", m_saturating_sub),
     (r"^core::num::<impl usize>::wrapping_sub$", m_wrapping_sub),
     (r"^core::num::<impl usize>::wrapping_add$", m_wrapping_add),
